@@ -173,3 +173,27 @@ func TestFindingF5ConsumedEntryLeavesWaiterParked(t *testing.T) {
 		t.Fatalf("WaitUntilFinished still parked 3s after the last job finished: pending=%d processing=%d", w.NumPending(), w.NumProcessing())
 	}
 }
+
+// G5  varmq.resultGroupJob.Close#assert:b2-close-last, varmq.errorGroupJob.Close#assert:b2-close-last -- resultGroupJob.Close / errorGroupJob.Close: `wgc.Done(); if wgc.Count() == 0 { Response.Close() }` -- two members of one batch that
+// finish together both see the counter at zero after their own decrement and both close the stream: panic "close of closed channel"
+// in a pool goroutine (the process dies). Needs two finishers of the same batch between each other's Done() and Count().
+func TestFindingG5BatchStreamClosedTwice(t *testing.T) {
+	w := NewResultWorker(func(j Job[int]) (int, error) { return j.Data(), nil }, 8)
+	q := w.BindQueue()
+	deadline := time.Now().Add(8 * time.Second)
+	for time.Now().Before(deadline) {
+		items := make([]Item[int], 8)
+		for i := range items {
+			items[i] = Item[int]{Data: i}
+		}
+		g := q.AddAll(items)
+		n := 0
+		for range g.Results() {
+			n++
+		}
+		if n != 8 {
+			t.Fatalf("got %d results for 8 items", n)
+		}
+	}
+	w.Stop()
+}
